@@ -35,7 +35,7 @@ def advance_helpers(repo):
         adds = [st for st in walk_noscope(fn) if _is_clock_advance(st)]
         exact = [st for st in walk_noscope(fn) if isinstance(st, ast.Assign) and isinstance(st.targets[0], ast.Subscript)
                  and (dotted(st.targets[0].value) or "").endswith("dae.t") and src(st.value) in targets]
-        if adds and len(list(walk_noscope(fn))) < 60:
+        if adds:
             out[name] = dict(adds=len(adds), exact=len(exact), targets=sorted(targets))
     return out
 
